@@ -54,7 +54,7 @@ CLAIMED = {
         "unfinished leaves are called; sequences of failures; checkpoint images: partial under 'file loads and running cleared', "
         "and a universal refutation of the protocol as stated (known findings S19, S28). Every failing position of generated DAGs "
         "incl. nested macros is run on the real library with real recovery/checkpoint files.",
-   design="13/C08", technique="Coq proofs (induction over nested graphs, invariant 'keyed leaves hold the right outputs') + differential correspondence + oracle",
+   design="13/C08", technique="Coq proofs (induction over nested graphs, invariant 'keyed leaves hold the right outputs') + Node._run_finally REGENERATED from node.py on every run and proved equal to the epilogue model (recovery-save guard, cache-before-checkpoint order; translator tie) + differential correspondence + oracle",
    note="Executors not covered. Checkpoint resume is refuted for the protocol "
         "the property states; proved under explicit flag clearing."),
  "C09": dict(
@@ -101,7 +101,7 @@ CLAIMED = {
         "called nothing that raised or refused, an exception names a node that raised in that run. Hand-wired flows with failing nodes (raised or suppressed), with and without a parent, are compared with the models; the "
         "oracle checks flags, outputs, error chain and 'nothing downstream ran' on flows and on DAG workflows with executor "
         "children in prescribed completion orders and nested macros.",
-   design="7/C06", technique="Coq invariant proofs over the failing-child loop + corollary of the DAG edge-token invariant + differential correspondence + oracle",
+   design="7/C06", technique="Coq invariant proofs over the failing-child loop + corollary of the DAG edge-token invariant + Node._run_finally REGENERATED from node.py on every run and proved equal to the epilogue model (signals leave exactly once; translator tie) + differential correspondence + oracle",
    note="Executor failures (completion at idle polls, during a local sibling's call, inside submit), nested macros and suppression "
         "at depth are covered by the oracle, not by the Fail.v model. No open finding: S6, S26, S27 were repaired in /repo "
         "(46849a9, a65bcde, 6fe5477 + 821e619)."),
